@@ -594,13 +594,14 @@ def cases(tier: str, seed: int):
                        'mode': 'local' if i % 3 else 'remote'}
     # follow-ups arriving while the first answer is still queued for a client that does not read
     for order in orders:
-        for (hook, beh, nth) in [('handle_client_request', 'reject', 2), ('handle_client_request', 'modify', 2)]:
+        for (hook, beh, nth) in [('handle_client_request', 'reject', 2), ('handle_client_request', 'modify', 2), ('handle_client_request', 'reject', 3)]:
             for pos in range(len(order)):
                 if tier == 'quick' and (len(order) + pos + nth) % 2:
                     continue
                 i += 1
                 yield {'seed': seed, 'i': i, 'order': order, 'table': {'%d:%s' % (order[pos], hook): [beh, nth]}, 'ending': 'normal',
-                       'followups': 1,     # one follow-up: nothing is outstanding upstream, nothing is sent behind a request that may get the connection closed
+                       'followups': nth - 1,   # nothing is sent behind a request that may get the connection closed; with nth == 3 an earlier
+                                               # follow-up's answer is still outstanding upstream when the rejection is queued (known finding)
                        'resp_cuts': 0, 'stalled_reader': [400000, 3000000][i % 2], 'transport': 'tcp'}
     # exhaustive: one non-pass behaviour of one plugin at one hook
     for order in orders:
